@@ -373,7 +373,8 @@ def main():
 
     # vacuity guard
     nt = len(acc["nontrivial"]) + nt_extra
-    floor = P.MIN_NONTRIVIAL.get(a.tier, 2) if a.cases is None else 2
+    # vacuity floor (stated for 16 workers, scaled with the number of workers actually used)
+    floor = max(2, P.MIN_NONTRIVIAL.get(a.tier, 2) * nworkers // 16) if a.cases is None else 2
     if errors:
         for e in errors:
             print("CHECK-BROKEN property=%s %s" % (pid, e))
